@@ -58,8 +58,12 @@ class Stack:
         mp = getattr(d, '_multi_pg_snd_buffer', None)
         if mp is not None:
             out['mpg'] = len(mp)
-            out['bam_free'] = sum(1 for x in getattr(d, '_J1939_22__bam_session_list') if x is True)
-            out['rts_free'] = sum(1 for x in getattr(d, '_J1939_22__rts_cts_session_list') if x is True)
+            # the session-number pools are private: if a tree represents them differently, the pools are judged by behaviour only
+            # (C10's final batch needs every number), not by inspection
+            for key, attr in (('bam_free', '_J1939_22__bam_session_list'), ('rts_free', '_J1939_22__rts_cts_session_list')):
+                pool = getattr(d, attr, None)
+                if isinstance(pool, list):
+                    out[key] = sum(1 for x in pool if x is True)
         return out
 
     def idle_problems(self):
